@@ -108,6 +108,7 @@ func main() {
 			os.Exit(2)
 		}
 		w.out = &Out{Floors: map[string]int{}, Stats: map[string]int{}}
+		gWorld = w
 		dumpFn(w, *dump)
 		return
 	}
